@@ -13,3 +13,6 @@ for _f in sorted(glob.glob(os.path.join(os.path.dirname(os.path.abspath(__file__
     _m = importlib.import_module(_n)
     CHECKS.update(getattr(_m, "CHECKS", {}))
     MANIFEST.update(getattr(_m, "MANIFEST", {}))
+
+# checks whose replay files carry a re-runnable case (vlib.do_replay); the others implement --replay themselves
+GENERIC_REPLAY = {"C01", "C02", "C03", "C04", "C05", "C06", "C07", "C08", "C17"}
